@@ -5,7 +5,8 @@ import ser
 ID = "C16"
 SOURCES = ["dagrt/transform.py", "dagrt/language.py"]
 RULE = ("random pairs of builder programs (2-7 calls each: assignments, guarded blocks, looped array assignments, calls, one yield) "
-        "that deliberately share temporary names (a, t1, i, <cond>), statement ids (same phase name) and reads of <t>/<dt>/<state>, "
+        "that deliberately share temporary names (a, t1, i, <cond>), statement ids (same phase name; in 40 % of the cases ids as a "
+        "person writes them: step, step_0, k_1, ... so that renamed ids meet old ids) and reads of <t>/<dt>/<state>, "
         "each writing its own persistent variables; fused through the REAL fuse_two_dags with three predicates (default, rename all, "
         "rename none). Compared with the Lean model: every fused statement (id, depends_on, guard, kind) — the iteration orders of "
         "the clash set and of the second statement set are read off the real objects. Oracle on the real fused DAG: ids unique, each "
@@ -58,17 +59,53 @@ def gen_method(rng, which):
     return ops
 
 
+ID_POOL = [b + sfx for b in ("step", "k", "s", "x", "stage", "r") for sfx in ("", "_0", "_1", "_0_0", "_2", "_1_0")]
+
+
 def cases(rng, tier):
     for _ in range(400 if tier == "quick" else 6000):
-        yield {"op": "C16.fuse", "tag": "random", "A": gen_method(rng, "A"), "B": gen_method(rng, "B"),
-               "pred": rng.choice(["default", "default", "default", "all", "none"]),
-               "store": [["<state>y", rng.randint(0, 5)], ["<state>z", rng.randint(0, 5)], ["<p>k", 0], ["<p>m", 0]]}
+        c = {"op": "C16.fuse", "tag": "random", "A": gen_method(rng, "A"), "B": gen_method(rng, "B"),
+             "pred": rng.choice(["default", "default", "default", "all", "none"]),
+             "store": [["<state>y", rng.randint(0, 5)], ["<state>z", rng.randint(0, 5)], ["<p>k", 0], ["<p>m", 0]]}
+        if rng.random() < 0.4:
+            # statement ids as a person would write them (step, step_0, k_1, ...) instead of the builder's numbering: an id
+            # of the second method may have to be renamed to a spelling that is the OLD id of another of its statements
+            c["relabel"] = rng.randint(1, 10 ** 6)
+            c["tag"] = "hand-written-ids"
+        yield c
 
 
-def build_dag(ops):
+def build_dag(ops, relabel=None):
     import c02
     from dagrt.language import DAGCode
     stmts, fresh, failed = c02.run_builder(ops)
+    if relabel is not None and len(stmts) <= len(ID_POOL) - 6:
+        import random
+        seed, role = relabel
+        bases = random.Random(seed).sample(["step", "k", "s", "x", "stage", "r"], 3)
+        rr = random.Random(seed * 2 + (role == "B"))
+        new = {}
+        if role == "A":
+            # the first method owns the plain spellings, and leaves their `_0` forms free
+            for b, st in zip(bases, rr.sample(list(stmts), min(len(stmts), len(bases)))):
+                new[st.id] = b
+            avoid = {b + "_0" for b in bases}
+        else:
+            # the second method has statements spelled X that depend on statements spelled X_0 (X will be renamed X_0)
+            edges = [(st.id, d) for st in stmts for d in sorted(st.depends_on)]
+            rr.shuffle(edges)
+            for b in bases:
+                for sid_, d in edges:
+                    if sid_ not in new and d not in new and sid_ != d:
+                        new[sid_], new[d] = b, b + "_0"
+                        break
+            avoid = set()
+        rest = [i for i in ID_POOL if i not in set(new.values()) | avoid]
+        for st, i in zip([st for st in sorted(stmts, key=lambda st: st.id) if st.id not in new], rr.sample(rest, len(stmts) - len(new))):
+            new[st.id] = i
+        # one constructor call per statement, id and dependencies together
+        stmts = [st.copy(id=new[st.id], depends_on=frozenset(new[d] for d in st.depends_on)) for st in stmts]
+        rr.shuffle(stmts)
     # run_builder keeps the CodeBuilder internal: rebuild the phase from its statements
     from dagrt.language import ExecutionPhase
     return DAGCode({"p": ExecutionPhase("p", "p", frozenset(stmts))}, "p")
@@ -89,11 +126,12 @@ def real_fuse(case):
     order is only reproducible on the SAME objects"""
     import json
     from dagrt.transform import fuse_two_dags
-    key = json.dumps([case["A"], case["B"], case["pred"]], sort_keys=True)
+    key = json.dumps([case["A"], case["B"], case["pred"], case.get("relabel")], sort_keys=True)
     if key not in _CACHE:
         if len(_CACHE) > 20000:
             _CACHE.clear()
-        da, db = build_dag(case["A"]), build_dag(case["B"])
+        rl = case.get("relabel")
+        da, db = build_dag(case["A"], rl and (rl, "A")), build_dag(case["B"], rl and (rl, "B"))
         fused = fuse_two_dags(da, db, should_disambiguate_name=PREDS[case["pred"]])
         _CACHE[key] = (da, db, fused)
     return _CACHE[key]
